@@ -42,6 +42,10 @@ KINDS = {
     "split": ([("m", "string")], "File[]"),
     "join": ([("f", "File[]")], "File"),
     "words": ([("m", "string")], "string[]"),
+    "idn": ([("n", "int")], "int"),
+    "neg": ([("b", "boolean")], "boolean"),
+    "ints": ([("n", "int")], "int[]"),
+    "nsum": ([("n", "int[]")], "int"),
 }
 
 
@@ -72,6 +76,11 @@ def _tool(kind, sname, dup=False):
         t = {"class": "ExpressionTool", "cwlVersion": "v1.2", "requirements": {"InlineJavascriptRequirement": {}},
              "inputs": ins, "outputs": {"o": "string[]"},
              "expression": "${return {o: [inputs.m + '1', inputs.m + '2', inputs.m + '1']};}"}
+    elif kind in ("idn", "neg", "ints", "nsum"):
+        e = {"idn": "inputs.n", "neg": "!inputs.b", "ints": "[0, inputs.n, 0]",
+             "nsum": "inputs.n.reduce(function(a, b){return a + b;}, 0)"}[kind]
+        t = {"class": "ExpressionTool", "cwlVersion": "v1.2", "requirements": {"InlineJavascriptRequirement": {}},
+             "inputs": ins, "outputs": {"o": KINDS[kind][1]}, "expression": "${return {o: " + e + "};}"}
     elif kind == "ls":
         t.update(sh('cd "$1" && find . | sort', "$(inputs.d.path)"))
         t.update(inputs=ins, stdout=sname + ".txt", outputs={"o": "stdout"})
@@ -143,13 +152,14 @@ class C34(Prop):
     CORR_MODULE = "Crate.Corr"
     LEVEL = "translation_validation"
     LEVEL_TEXT = ("Translation validation by a checker proved sound AND complete in Coq (closed under the global context): "
-                  "crate_ok graph entries values = true iff the declarative well-formedness predicate holds (every entity "
+                  "crate_ok graph entries values stepvalues = true iff the declarative well-formedness predicate holds (every entity "
                   "has a string @id, @ids unique, every nested {\"@id\"} reference that is not an http(s) URL resolves, every "
                   "File entity has an archive entry of that name whose digest equals the recorded sha1 and whose size equals "
                   "the recorded contentSize when present, every workflow-level input/output value of the run is represented by "
                   "an entity listed under object/result of the root CreateAction, tied by exampleOfWork to the formal parameter "
                   "of that name, with matching sha1+size archive entry for files, literal text for literals, element-wise for "
-                  "arrays and hasPart-reachable File entities for directory members). Each exported crate of a real, small, "
+                  "arrays and hasPart-reachable File entities for directory members; the CreateActions orchestrated for a step "
+                  "list at least one result and nothing but entities carrying what that step produced). Each exported crate of a real, small, "
                   "offline CWL run (streamflow run + streamflow prov on an on-disk sqlite database) is parsed and the checker "
                   "is evaluated inside Coq on it; an oracle written independently in Python from the property text judges "
                   "the same crate and the two verdicts are compared. The crate generator (run_crate.py) is NOT modelled.")
@@ -157,32 +167,34 @@ class C34(Prop):
                   "the generator; a crate is only known good when it was actually checked. Trusted: Coq kernel + vm_compute; "
                   "Python json/zipfile/hashlib used to parse the archive and compute digests; the rendering of JSON as "
                   "Gallina terms; the harness's computation of the run's input/output values (inputs from the case spec, "
-                  "outputs from StreamFlow's printed result object and the files on disk); step-level (per job) values and "
+                  "outputs from StreamFlow's printed result object and the files on disk; the product of a non-scattered step "
+                  "is known only when it is also a workflow output); step inputs, scattered steps' per-job values and "
                   "secondaryFiles/record values are not checked.")
     TECHNIQUE = ("verified checker (Coq soundness+completeness proof of crate_ok w.r.t. a declarative predicate) evaluated "
                  "with vm_compute on crates exported from real runs; independent Python oracle from the property text")
     RULE = ("cases are typed random workflow specs over step kinds cat/echo/num/flag/expr/len/words/ls/mkd/scat/secho/"
-            "split/join (files vs literals, scatter over File[] and string[], nested directories in and out, the same "
+            "split/join/idn/neg/ints/nsum (files vs literals incl. the falsy ones 0, false, \"\", zeros in arrays, scatter over File[] and string[], nested directories in and out, the same "
             "file/content used for two inputs, step outputs consumed by later steps and/or exported, inputs passed "
             "straight to outputs, embedded vs external tool files, optional deletion of an input/output/intermediate "
-            "file or directory member before export). Non-trivial = the run completed and the crate was exported. "
+            "file or directory member before export; one case per run has 11-13 steps s1..s13 sharing one tool file). Non-trivial = the run completed and the crate was exported. "
             "Distinct = distinct canonical spec.")
     TRUSTED = ("checker: Crate/Checker.v crate_ok is what is proved (sound and complete for Crate/Spec.v wf_crate); the "
                "generator streamflow/provenance/run_crate.py is not modelled, only its output on each run is checked",
                "Python json, zipfile, hashlib (parsing the exported archive, digests and sizes of its entries)",
                "harness: CWL workflow builder, computation of the run values, JSON->Gallina rendering")
-    ASSUMPTIONS = ("run values are the workflow-level inputs (job file) and outputs (result object printed by `streamflow run`); "
-                   "per-job values are not judged",
+    ASSUMPTIONS = ("run values are the workflow-level inputs (job file) and outputs (result object printed by `streamflow run`), "
+                   "plus, for a non-scattered step whose output is a workflow output, what its actions may list as result",
                    "references whose @id starts with http:// or https:// are web resources and need no entity in the graph",
                    "a literal is represented by its Python str() or JSON text")
     MAX_WORKERS = 8
+    SHRINK_BUDGET_S = 0    # every shrink candidate is two engine runs; replays carry the unshrunk case
     CASES_PER_WORKER = 1   # every case is two real engine processes (run + prov)
     CASE_TIMEOUT = 600
     SHARD_TIMEOUT = 3000
     COQ_SHARD = 6
 
     # ------------------------------------------------------------------------------------------ generation
-    WORDS = ["alpha", "beta", "gamma", "delta", "x1", "y-2", "z_3", "hello world", "q"]
+    WORDS = ["alpha", "beta", "gamma", "delta", "x1", "y-2", "z_3", "hello world", "q", "", ""]
 
     def _mkinput(self, rng, ty, idx, pool):
         n = f"i{idx}"
@@ -199,12 +211,14 @@ class C34(Prop):
         if ty == "string":
             return {"n": n, "t": ty, "v": rng.choice(self.WORDS)}
         if ty == "int":
-            return {"n": n, "t": ty, "v": rng.choice([0, 1, 7, 10, 42, 123456789])}
+            return {"n": n, "t": ty, "v": rng.choice([0, 0, 1, 7, 10, 42, 123456789])}
         if ty == "boolean":
             return {"n": n, "t": ty, "v": rng.random() < 0.5}
         if ty == "string[]":
             k = rng.choice([0, 1, 2, 3])
             return {"n": n, "t": ty, "v": [rng.choice(["alpha", "beta", "gamma", "x1", "q"]) + str(j) for j in range(k)]}
+        if ty == "int[]":
+            return {"n": n, "t": ty, "v": rng.choice([[], [0], [0, 3, 0], [5, 7], [0, 0], [12]])}
         if ty == "File[]":
             k = rng.choice([0, 1, 2, 3])
             vs = []
@@ -226,8 +240,8 @@ class C34(Prop):
 
     def _spec(self, rng):
         ninp = rng.randrange(1, 5)
-        types = ["File", "string", "int", "boolean", "Directory", "File[]", "string[]"]
-        weights = [4, 3, 1, 1, 2, 2, 1]
+        types = ["File", "string", "int", "boolean", "Directory", "File[]", "string[]", "int[]"]
+        weights = [4, 3, 2, 2, 2, 2, 1, 1]
         inputs, pool = [], []
         for i in range(ninp):
             inputs.append(self._mkinput(rng, rng.choices(types, weights)[0], i, pool))
@@ -271,10 +285,20 @@ class C34(Prop):
         return {"f": "run", "inputs": inputs, "steps": steps, "outputs": outputs,
                 "ext": rng.random() < 0.3, "delete": None}
 
+    def _many(self, rng):
+        """>= 11 steps running the SAME external tool file, with step names that are prefixes of one another
+        (s1, s10, s11, s12): _update_actions matches steps by name prefix within one tool."""
+        k = rng.choice([11, 12, 13])
+        inputs = [{"n": f"i{j}", "t": "string", "v": f"w{j}"} for j in range(k)]
+        steps = [{"n": f"s{j + 1}", "k": "echo", "in": {"m": f"i{j}"}, "shared": True} for j in range(k)]
+        outputs = [{"n": f"o{j}", "src": f"s{j + 1}/o", "t": "File"} for j in range(k)]
+        return {"f": "run", "inputs": inputs, "steps": steps, "outputs": outputs, "ext": True, "delete": None}
+
     def gen(self, rng, tier):
         n = {"quick": 24, "thorough": 160, "extended": 48}[tier]
         cases = []
-        for _ in range(n):
+        cases.append(self._many(rng))
+        for _ in range(n - 1):
             c = self._spec(rng)
             r = rng.random()
             if r < 0.12:
@@ -318,7 +342,7 @@ class C34(Prop):
                 job[n] = {"class": "Directory", "path": p}
                 values.append({"dir": "in", "param": n, "kind": "dir",
                                "files": [{"sha1": _sha1(b), "size": len(b)} for _, b in _tree_files(v["tree"])]})
-            elif ty == "string[]":
+            elif ty in ("string[]", "int[]"):
                 job[n] = v
                 values.append({"dir": "in", "param": n, "kind": "list",
                                "items": [{"kind": "lit", "alts": _lit_alts(x)} for x in v]})
@@ -333,11 +357,12 @@ class C34(Prop):
         if c.get("ext"):
             os.makedirs(os.path.join(d, "tools"))
         for st in c["steps"]:
-            tool = _tool(st["k"], st["n"], st.get("dup", False))
+            tool = _tool(st["k"], "$(inputs.m)_sh" if st.get("shared") else st["n"], st.get("dup", False))
             if c.get("ext"):
-                tp = os.path.join(d, "tools", f"{st['n']}_{st['k']}.cwl")
+                tname = f"shared_{st['k']}.cwl" if st.get("shared") else f"{st['n']}_{st['k']}.cwl"
+                tp = os.path.join(d, "tools", tname)
                 json.dump(tool, open(tp, "w"), indent=1)
-                run = os.path.join("tools", f"{st['n']}_{st['k']}.cwl")
+                run = os.path.join("tools", tname)
             else:
                 tool.pop("cwlVersion", None)
                 run = tool
@@ -450,7 +475,20 @@ class C34(Prop):
                 rel = _tree_files(ds[0]["v"]["tree"])[-1][0]
                 deleted = os.path.join(d, "data", ds[0]["v"]["name"], rel)
                 os.remove(deleted)
-        for v in values:   # paths are not part of the observation
+        # what individual (non-scattered) steps produced, known when the step's output is a workflow output
+        steps = []
+        for st in c["steps"]:
+            if st["k"] in ("scat", "secho"):
+                continue
+            for o in c["outputs"]:
+                if o["src"] == f"{st['n']}/o":
+                    ov = next((v for v in values if v["dir"] == "out" and v["param"] == o["n"]), None)
+                    if ov is not None and ov["kind"] != "unsupported":
+                        sv = json.loads(json.dumps({k: x for k, x in ov.items() if k not in ("dir", "param")}))
+                        sv["step"] = "wf.cwl#" + st["n"]
+                        steps.append(sv)
+                    break
+        for v in values + steps:   # paths are not part of the observation
             v.pop("path", None)
             for it in v.get("items", []) + v.get("files", []):
                 it.pop("path", None)
@@ -469,14 +507,14 @@ class C34(Prop):
             try:
                 raw = z.read("ro-crate-metadata.json")
             except KeyError:
-                return {"status": "exported", "deleted": bool(deleted), "meta": None, "archive": entries, "values": values}
+                return {"status": "exported", "deleted": bool(deleted), "meta": None, "archive": entries, "values": values, "steps": steps}
         try:
             meta = json.loads(raw.decode("utf-8"))
         except ValueError:
-            return {"status": "exported", "deleted": bool(deleted), "meta": None, "archive": entries, "values": values}
+            return {"status": "exported", "deleted": bool(deleted), "meta": None, "archive": entries, "values": values, "steps": steps}
         return {"status": "exported", "deleted": bool(deleted), "meta": _canon_meta(meta),
                 "archive": [e if e[0] not in META_ENTRIES else [e[0], "-", 0] for e in entries],   # their bytes hold uuids
-                "values": values}
+                "values": values, "steps": steps}
 
     # ------------------------------------------------------------------------------------------ oracle
     def oracle(self, c, o):
@@ -488,7 +526,7 @@ class C34(Prop):
             if o.get("deleted"):
                 return ("export-fails-after-delete", "export raised after a file was deleted: " + o["stderr"][-200:])
             return ("export-fails", "a completed run cannot be exported: " + o["stderr"][-300:])
-        v = oracle_crate(o["meta"], o["archive"], o["values"])
+        v = oracle_crate(o["meta"], o["archive"], o["values"], o.get("steps", []))
         return v
 
     def signature(self, c, o, clause):
@@ -521,11 +559,12 @@ class C34(Prop):
         for v in o["values"]:
             if v["kind"] == "unsupported":
                 return None
-        verdict = oracle_crate(o["meta"], o["archive"], o["values"]) is None
+        verdict = oracle_crate(o["meta"], o["archive"], o["values"], o.get("steps", [])) is None
         graph = coq_list([coq_json(e) for e in g])
         ar = coq_list([f"({coq_str(n)}, {coq_str(h)}, {coq_N(s)})" for n, h, s in o["archive"]])
         vals = coq_list([coq_rv(v) for v in o["values"]])
-        return f"CCrate {graph}\n   {ar}\n   {vals} {coq_bool(verdict)}"
+        svs = coq_list([coq_sv(v) for v in o.get("steps", [])])
+        return f"CCrate {graph}\n   {ar}\n   {vals}\n   {svs} {coq_bool(verdict)}"
 
     def shrink(self, c):
         # drop outputs, then trailing steps nobody uses, then unused inputs
@@ -588,19 +627,25 @@ def coq_item(it):
     return f"(ILit {coq_list([coq_str(a) for a in it['alts']])})"
 
 
-def coq_rv(v):
-    d = "true" if v["dir"] == "in" else "false"
-    p = coq_str(v["param"])
+def coq_value(v):
     if v["kind"] == "file":
-        return f"(RV {d} {p} (VItem (IFile {coq_str(v['sha1'])} {coq_N(v['size'])})))"
+        return f"(VItem (IFile {coq_str(v['sha1'])} {coq_N(v['size'])}))"
     if v["kind"] == "lit":
-        return f"(RV {d} {p} (VItem (ILit {coq_list([coq_str(a) for a in v['alts']])})))"
+        return f"(VItem (ILit {coq_list([coq_str(a) for a in v['alts']])}))"
     if v["kind"] == "list":
-        return f"(RV {d} {p} (VList {coq_list([coq_item(i) for i in v['items']])}))"
+        return f"(VList {coq_list([coq_item(i) for i in v['items']])})"
     if v["kind"] == "dir":
         fs = coq_list(["(" + coq_str(f["sha1"]) + ", " + coq_N(f["size"]) + ")" for f in v["files"]])
-        return f"(RV {d} {p} (VDir {fs}))"
+        return f"(VDir {fs})"
     raise ValueError(v["kind"])
+
+
+def coq_rv(v):
+    return f"(RV {'true' if v['dir'] == 'in' else 'false'} {coq_str(v['param'])} {coq_value(v)})"
+
+
+def coq_sv(v):
+    return f"(SV {coq_str(v['step'])} {coq_value(v)})"
 
 
 # ----------------------------------------------------------------------------------------------------
@@ -639,7 +684,7 @@ def _is_url(s):
     return s.startswith("http://") or s.startswith("https://")
 
 
-def oracle_crate(meta, archive, values):
+def oracle_crate(meta, archive, values, steps=()):
     # -- valid JSON-LD metadata
     if meta is None:
         return ("json-ld", "ro-crate-metadata.json missing or not JSON")
@@ -687,6 +732,26 @@ def oracle_crate(meta, archive, values):
         if not any(_represented(seen, archive, a, seen.get(main, {}), v) for a in actions):
             return ("value-missing", f"{v['dir']}put value of {v['param']!r} ({v['kind']}) is not represented: "
                                      f"{json.dumps(v)[:200]}")
+    # -- consistent at step level: the actions of a step list as result what that step produced, nothing else
+    for sv in steps:
+        controls = [c for c in g if "ControlAction" in _types(c) and isinstance(c.get("instrument"), dict)
+                    and c["instrument"].get("@id") == sv["step"]]
+        if not controls:
+            return ("step-missing", f"no ControlAction for step {sv['step']}")
+        for c in controls:
+            for aid in _vrefs(c.get("object", [])):
+                for a in g:
+                    if a["@id"] != aid:
+                        continue
+                    rs = _vrefs(a.get("result", []))
+                    if not rs:
+                        return ("step-result-missing", f"action {a.get('name')!r} of step {sv['step']} lists no result")
+                    for x in rs:
+                        if x not in seen or not _val_ok(seen, archive, seen[x], x, sv):
+                            return ("step-foreign-result",
+                                    f"action {a.get('name')!r} of step {sv['step']} lists result {x!r} "
+                                    f"({seen.get(x, {}).get('alternateName', seen.get(x, {}).get('value'))}), which is "
+                                    f"not what the step produced ({json.dumps(sv)[:150]}); it lists {len(rs)} results")
     return None
 
 
@@ -735,6 +800,25 @@ def _reach(seen, start):
     return out
 
 
+def _val_ok(seen, archive, e, x, v):
+    """entity e (whose id is x) carries the value v"""
+    if v["kind"] == "file":
+        return _file_ok(seen, archive, x, v["sha1"], v["size"])
+    if v["kind"] == "lit":
+        return "PropertyValue" in _types(e) and "value" in e and _item_ok(seen, archive, e["value"], v)
+    if v["kind"] == "list":
+        if "PropertyValue" in _types(e) and "value" in e:
+            val = e["value"] if isinstance(e["value"], list) else [e["value"]]
+            return len(val) == len(v["items"]) and all(_item_ok(seen, archive, j, it) for j, it in zip(val, v["items"]))
+        return False
+    if v["kind"] == "dir":
+        if "Dataset" in _types(e):
+            reach = _reach(seen, x)
+            return all(any(_file_ok(seen, archive, y, f["sha1"], f["size"]) for y in reach) for f in v["files"])
+        return False
+    return False
+
+
 def _represented(seen, archive, action, main, v):
     side = "input" if v["dir"] == "in" else "output"
     params = [p for p in _vrefs(main.get(side, [])) if p in seen and "FormalParameter" in _types(seen[p])
@@ -744,22 +828,8 @@ def _represented(seen, archive, action, main, v):
         e = seen.get(x)
         if e is None or not any(p in _vrefs(e.get("exampleOfWork", [])) for p in params):
             continue
-        if v["kind"] == "file":
-            if _file_ok(seen, archive, x, v["sha1"], v["size"]):
-                return True
-        elif v["kind"] == "lit":
-            if "PropertyValue" in _types(e) and "value" in e and _item_ok(seen, archive, e["value"], v):
-                return True
-        elif v["kind"] == "list":
-            if "PropertyValue" in _types(e) and "value" in e:
-                val = e["value"] if isinstance(e["value"], list) else [e["value"]]
-                if len(val) == len(v["items"]) and all(_item_ok(seen, archive, j, it) for j, it in zip(val, v["items"])):
-                    return True
-        elif v["kind"] == "dir":
-            if "Dataset" in _types(e):
-                reach = _reach(seen, x)
-                if all(any(_file_ok(seen, archive, y, f["sha1"], f["size"]) for y in reach) for f in v["files"]):
-                    return True
+        if _val_ok(seen, archive, e, x, v):
+            return True
     return False
 
 
